@@ -1070,7 +1070,121 @@ async def nested_start_component_keeps_its_own_timeout():
     return ok, f"{seen}"
 
 
-SCENARIOS = {f.__name__: f for f in (optional_injection_is_the_optional_lookup, rejected_add_registers_no_callback,
+async def hard_coded_kwargs_reach_the_child_as_they_are():
+    """C14: the keyword arguments given to add_component() reach the child's constructor AS THEY ARE (the very
+    objects, of their own types) also when the external configuration overrides some other option of that alias;
+    and a type named by a module:attr reference is looked up when the tree is started, not remembered from an
+    earlier start"""
+    import collections
+    import sys
+    import types
+    from asphalt.core import Component, start_component
+    seen = {}
+
+    class Child(Component):
+        def __init__(self, registry=None, counters=None, level=0):
+            seen["child"] = (registry, counters, level)
+    reg, cnt = {"shared": []}, collections.defaultdict(int)
+
+    class Parent(Component):
+        def __init__(self):
+            self.add_component("w", Child, registry=reg, counters=cnt, level=1)
+    async with Context():
+        await start_component(Parent, {"components": {"w": {"level": 2}}})
+    r, c, lv = seen["child"]
+    same = r is reg and c is cnt and type(c) is collections.defaultdict and lv == 2
+    # module:attr resolved at every start
+    mod = types.ModuleType("verif_fixed_mod")
+
+    class First(Component):
+        pass
+
+    class Second(Component):
+        pass
+    mod.Service = First
+    sys.modules["verif_fixed_mod"] = mod
+    try:
+        async with Context():
+            a = await start_component("verif_fixed_mod:Service", {})
+        mod.Service = Second
+        async with Context():
+            b = await start_component("verif_fixed_mod:Service", {})
+    finally:
+        del sys.modules["verif_fixed_mod"]
+    fresh = type(a) is First and type(b) is Second
+    return same and fresh, f"kwargs passed as they are: {same} (registry is the parent's: {r is reg}, counters: {type(c).__name__}, level {lv}); reference resolved at each start: {type(a).__name__}, {type(b).__name__}"
+
+
+async def overriding_signal_has_its_own_event_class():
+    """C11: a bound signal carries ITS attribute's event class: a subclass that declares a signal under the name of
+    an inherited one gets the subclass's declaration, whichever of the instance's signals is touched first"""
+    from asphalt.core import Event, Signal
+
+    class ConfigEvent(Event):
+        pass
+
+    class ReloadEvent(Event):
+        pass
+
+    class Base:
+        changed = Signal(ConfigEvent)
+        other = Signal(Event)
+
+    class Sub(Base):
+        changed = Signal(ReloadEvent)
+    out = []
+    for first in ("other", "changed"):
+        o = Sub()
+        getattr(o, first)
+        try:
+            o.changed.dispatch(ReloadEvent())
+            ok1 = True
+        except TypeError:
+            ok1 = False
+        try:
+            o.changed.dispatch(ConfigEvent())
+            ok2 = False
+        except TypeError:
+            ok2 = True
+        b = Base()
+        b.other
+        try:
+            b.changed.dispatch(ConfigEvent())
+            ok3 = True
+        except TypeError:
+            ok3 = False
+        out.append((first, ok1, ok2, ok3))
+    return all(all(x[1:]) for x in out), f"(touched first, Sub accepts its own class, Sub rejects the base's, Base accepts its own) = {out}"
+
+
+async def second_half_runs_at_the_outer_teardown():
+    """C01 (and C15): the second half of a @context_teardown function runs when the context that was current WHEN
+    THE FUNCTION WAS CALLED is torn down -- also when the function keeps a context of its own open across its
+    yield; and an add_resource() refused with ResourceConflict leaves no callback behind (C15: at the end of an
+    application exactly the registered callbacks run)"""
+    from asphalt.core import context_teardown
+    ran = []
+
+    @context_teardown
+    async def start(tag):
+        async with Context():
+            ran.append(("first-half", tag))
+            yield
+            ran.append(("second-half", tag))
+    out = None
+    try:
+        async with Context():
+            await start("a")
+            ran.append(("block",))
+        out = "clean"
+    except BaseException as e:  # noqa
+        out = type(e).__name__ + ": " + str(e)[:60]
+    ok = ran == [("first-half", "a"), ("block",), ("second-half", "a")] and out == "clean"
+    return ok, f"{ran}; the outer context ended: {out}"
+
+
+SCENARIOS = {f.__name__: f for f in (optional_injection_is_the_optional_lookup, hard_coded_kwargs_reach_the_child_as_they_are,
+                                     overriding_signal_has_its_own_event_class, second_half_runs_at_the_outer_teardown, rejected_add_registers_no_callback,
                                      wait_finished_means_completely_finished, dead_iterator_inside_its_block_disturbs_nobody,
                                      racing_lookups_generate_once, failing_factory_leaves_the_current_context_alone,
                                      nested_start_component_keeps_its_own_timeout, waiting_component_gets_the_async_factorys_product,
